@@ -3,6 +3,8 @@ package props
 import (
 	"crypto/ecdsa"
 	"crypto/ed25519"
+	"fmt"
+	"verifharness/stats"
 
 	"pgregory.net/rapid"
 
@@ -156,6 +158,28 @@ func genKeySpec(t *rapid.T) keySpec {
 		if k.BaseIV == nil {
 			k.BaseIV = rc.Hex{}
 		}
+	}
+	switch rapid.IntRange(0, 14).Draw(t, "extra-odd") {
+	case 0:
+		k.Extra = append(k.Extra, rc.E(rc.Text(rapid.SampledFrom([]string{"-1", "-2", "-3", "-4", "1", "2", "3", "4", "5", "0", ""}).Draw(t, "extra-numeric-tlabel")), gen.Leaf(t, gen.ValOpts{})))
+		stats.Class("extra/text-label-spelling-a-number")
+		return k
+	case 1:
+		l := int64(rapid.SampledFrom([]int{-70001, -7, 6, 99, 65536}).Draw(t, "extra-twin-label"))
+		k.Extra = append(k.Extra, rc.E(rc.Int(l), gen.Leaf(t, gen.ValOpts{})), rc.E(rc.Text(fmt.Sprint(l)), gen.Leaf(t, gen.ValOpts{})))
+		stats.Class("extra/integer-and-text-twin")
+		return k
+	case 2:
+		n := rapid.SampledFrom([]int{9, 10, 11, 12, 13, 14, 15, 16, 17, 20, 30, 33, 64, 65, 130}).Draw(t, "extra-many")
+		for i := 0; i < n; i++ {
+			if i%2 == 0 {
+				k.Extra = append(k.Extra, rc.E(rc.Int(int64(1000+i)), rc.Int(int64(i))))
+			} else {
+				k.Extra = append(k.Extra, rc.E(rc.Text(fmt.Sprintf("p%d", i)), rc.Bytes([]byte{byte(i)})))
+			}
+		}
+		stats.Class("extra/many-parameters")
+		return k
 	}
 	if rapid.IntRange(0, 2).Draw(t, "hasextra") == 0 {
 		n := rapid.IntRange(1, 3).Draw(t, "nextra")
